@@ -384,7 +384,11 @@ def execute(case):
             probe("fparser1_interleaved")
             try:
                 blk = fparser.api.parse(pool[op[1]], isfree=True, isstrict=False)
-                res = ["ok", fp.sha(str(blk))]
+                # the header comment line carries the reader's name (an object address or
+                # "string-<hash(text)>"): process-dependent by design, not an observation
+                body = "\n".join(ln for ln in str(blk).split("\n")
+                                 if not ln.lstrip().startswith("!BEGINSOURCE"))
+                res = ["ok", fp.sha(body)]
             except BaseException as err:  # noqa: B902
                 res = ["raise", type(err).__name__]
             events.append(["api", op[1], res])
